@@ -36,6 +36,8 @@ func (s Step) String() string {
 		return fmt.Sprintf("join(r%d<-load of the newest %d entries of r%d)", s.R, s.PC, s.S)
 	case "joinalien":
 		return fmt.Sprintf("cross-key-merges(r%d <-> log written with another link key)", s.R)
+	case "joinmislabelled":
+		return fmt.Sprintf("join(r%d<-log object carrying this log's id but holding the entries of ANOTHER log)", s.R)
 	case "joinimpostor":
 		return fmt.Sprintf("join(r%d<-log whose head is a copy of r%d's own %s entry #%d with %s, same hash)", s.R, s.R, s.Payload, s.S, []string{"another payload", "no links", "another payload and no links"}[s.PC%3])
 	case "burst":
@@ -51,12 +53,12 @@ func (s Step) String() string {
 // ExpectsError: operations that the library refuses (and that must leave the log as it was). "joinimpostor"
 // may be refused or succeed; see MustNotChange.
 func (s Step) ExpectsError() bool {
-	return s.Op == "denyappend" || s.Op == "joinrejected" || s.Op == "joinalien" || s.Op == "joinimpostor"
+	return s.Op == "denyappend" || s.Op == "joinrejected" || s.Op == "joinalien" || s.Op == "joinimpostor" || s.Op == "joinmislabelled"
 }
 
 // MustNotChange: operations after which the replica must be as before whether or not an error is returned.
 func (s Step) MustNotChange() bool {
-	return s.Op == "joinimpostor" || s.Op == "joinself" || s.Op == "joinempty" || s.Op == "joinforeign"
+	return s.Op == "joinimpostor" || s.Op == "joinmislabelled" || s.Op == "joinself" || s.Op == "joinempty" || s.Op == "joinforeign"
 }
 
 type History struct {
@@ -71,6 +73,7 @@ type History struct {
 	Failures      bool   `json:"failures,omitempty"`      // replicas carry a payload-prefix deny policy; history has refused operations
 	HugeClocks    bool   `json:"huge_clocks,omitempty"`   // replicas start with a clock time of 2^60 (LogOptions.Clock)
 	ReuseOptions  bool   `json:"reuse_options,omitempty"` // loaders are called with one reused LogOptions / FetchOptions value
+	KeyWipeAt     int    `json:"key_wipe_at,omitempty"`   // link codecs: the codec is built from a caller buffer that the caller wipes before this step
 	Steps         []Step `json:"steps"`
 }
 
@@ -170,7 +173,10 @@ func Gen(seed int64, idx int, o GenOpts) *History {
 		}
 		if o.Failures && len(h.Steps) < n && rng.Intn(7) == 0 {
 			// a refused operation or a fork, followed by ordinary traffic
-			switch rng.Intn(6) {
+			switch rng.Intn(7) {
+			case 6:
+				// e.g. NewFromEntryHash(head of another log, LogOptions{ID: this log's id})
+				h.Steps = append(h.Steps, Step{Op: "joinmislabelled", R: s.R})
 			case 5:
 				// a log offering, as its head, a same-hash object that differs from what this replica holds
 				h.Steps = append(h.Steps, Step{Op: "joinimpostor", R: s.R, S: rng.Intn(1000), PC: rng.Intn(3), Payload: []string{"head", "head", "interior"}[rng.Intn(3)]})
@@ -220,6 +226,9 @@ func Gen(seed int64, idx int, o GenOpts) *History {
 	}
 	if o.Truncated && idx%2 == 0 {
 		h.Shape = "lagging"
+	}
+	if (h.Codec == "link" || h.Codec == "link2") && rng.Intn(2) == 0 {
+		h.KeyWipeAt = 2 + n/3
 	}
 	switch h.Shape {
 	case "lagging":
@@ -434,6 +443,7 @@ type Exec struct {
 	Empty    *ipfslog.IPFSLog
 	Foreign  *ipfslog.IPFSLog
 	alien    *ipfslog.IPFSLog // same id, written with the OTHER link key
+	wipe     func()
 	forkMaps map[int]forkMap
 }
 
@@ -447,6 +457,11 @@ func NewExec(h *History) *Exec {
 	w.DenyPrefix = h.Failures
 	w.ReuseOptions = h.ReuseOptions
 	x := &Exec{W: w, H: h, forkMaps: map[int]forkMap{}}
+	if h.KeyWipeAt > 0 && (h.Codec == "link" || h.Codec == "link2") {
+		io, wipe := LateWipeLinkIO(map[string]int{"link": 1, "link2": 2}[h.Codec])
+		w.SetIO(io)
+		x.wipe = wipe
+	}
 	for r := 0; r < h.Replicas; r++ {
 		if h.HugeClocks {
 			lo := w.LogOpts(w.LogID)
@@ -566,6 +581,10 @@ func (x *Exec) burst(s Step) StepResult {
 func (x *Exec) Do(i int) StepResult {
 	s := x.H.Steps[i]
 	l := x.Logs[s.R]
+	if x.wipe != nil && i >= x.H.KeyWipeAt {
+		x.wipe() // the application wipes the buffer it built the link key from
+		x.wipe = nil
+	}
 	switch s.Op {
 	case "append":
 		e, err := l.Append(x.W.Ctx, []byte(s.Payload), &iface.AppendOptions{PointerCount: s.PC, Pin: s.Pin})
@@ -616,6 +635,17 @@ func (x *Exec) Do(i int) StepResult {
 			if tmp, err = ipfslog.NewLog(x.W.Store.API(), x.W.Idents[x.Writer[s.S]], lo2); err != nil {
 				panic(err)
 			}
+		}
+		_, jerr := l.Join(tmp, -1)
+		return StepResult{Err: jerr}
+	case "joinmislabelled":
+		lo := x.W.LogOpts(x.W.LogID)
+		lo.AccessController = nil
+		lo.Entries = x.Foreign.GetEntries()
+		lo.Heads = x.Foreign.Heads().Slice()
+		tmp, err := ipfslog.NewLog(x.W.Store.API(), x.W.Idents[x.Writer[s.R]], lo)
+		if err != nil {
+			panic(err)
 		}
 		_, jerr := l.Join(tmp, -1)
 		return StepResult{Err: jerr}
